@@ -102,6 +102,7 @@ class Builder:
         d = getattr(tgt, 'decl', None) or astx.find_function(tgt.src, tgt.filt, tgt.name, tgt.nparams, tgt.sig, tgt.extra_flags, tgt.parent)
         lw = tgt.lowerer_cls(d, tgt.cname, self.profile, this_type=tgt.this)
         lw.source_files = [tgt.src] + list(getattr(tgt, 'more_sources', []))
+        lw.extra_flags = tgt.extra_flags
         try:
             helpers = []
             for _attempt in range(6):
@@ -136,6 +137,7 @@ class Builder:
                         self.auto_callees = getattr(self, 'auto_callees', []) + [{'function': hcls + '::' + hname, 'for': tgt.cname}]
                         lw = tgt.lowerer_cls(d, tgt.cname, self.profile, this_type=tgt.this)
                         lw.source_files = [tgt.src] + list(getattr(tgt, 'more_sources', []))
+                        lw.extra_flags = tgt.extra_flags
                         continue
                     hname, hn = m.group(1), int(m.group(2))
                     try:
@@ -154,6 +156,7 @@ class Builder:
                     self.auto_callees = getattr(self, 'auto_callees', []) + [{'function': hname, 'for': tgt.cname}]
                     lw = tgt.lowerer_cls(d, tgt.cname, self.profile, this_type=tgt.this)
                     lw.source_files = [tgt.src] + list(getattr(tgt, 'more_sources', []))
+                    lw.extra_flags = tgt.extra_flags
             else:
                 raise Unsupported('too many unknown helper functions')
             # local lambdas lifted to C functions (cxx2c.lift_local_lambda): the unit places `builder.lifted` before the function bodies
